@@ -47,9 +47,13 @@ def generate(tier, seed):
     for k in range(nmal):
         cases.append({"kind": "mal_rand", "n": per, "seed": "%d:mal:%d" % (seed, k), "cost": 2})
     # pipeline: serial rewrites
-    npipe = 48 if tier == "quick" else 1200
+    npipe = 120 if tier == "quick" else 6000
     for k in range(npipe):
         cases.append({"kind": "serial", "seed": "%d:serial:%d" % (seed, k), "cost": 30})
+    # ... with input hydrogens read through -k --protonate-all (file hydrogens keep their file serial
+    # while all other atoms are renumbered), serials 1..N in another order
+    for k in range(60 if tier == "quick" else 3000):
+        cases.append({"kind": "serial", "door": "keep+protonate-all", "seed": "%d:serialk:%d" % (seed, k), "cost": 30})
     return cases
 
 
@@ -245,6 +249,12 @@ def run_case(case, tier):
                                            if k in ("valid_values", "malformed", "pipeline_runs"))}
 
 
+def _blank(r):
+    r = r.copy()
+    r.alt = " "
+    return r
+
+
 def run_serial_case(case, viol, counts):
     """Rewrite the serial column with arbitrary valid hybrid-36 fields: records identical."""
     from .. import obs, pdbio, sources
@@ -254,8 +264,33 @@ def run_serial_case(case, viol, counts):
         # several MODELs / alternate locations (atoms are copied between conformations)
         from .. import multiconf
         recs, _d = multiconf.build(rng, base=recs)
-    base = obs.run_single(pdbio.dump(recs))
+    opts = list(rng.choice(([], [], ["-k"], ["--protonate-all"], ["-k", "--protonate-all"], ["-k", "--protonate-all"], ["-d"])))
+    with_h = False
+    door = case.get("door")
+    if door:
+        opts = ["-k", "--protonate-all"]
+        first = []
+        for r in recs:                       # the first model only, one alternate location, protein atoms
+            if r.raw is not None and r.tag == "ENDMDL":
+                break
+            if r.raw is not None and r.tag == "MODEL ":
+                continue
+            if r.raw is None and (r.tag != "ATOM  " or r.alt not in (" ", "A")):
+                continue
+            first.append(r if r.raw is not None or r.alt == " " else _blank(r))
+        recs = first
+    if (door or rng.random() < 0.5) and all(r.raw is not None or (r.tag == "ATOM  " and r.alt == " ") for r in recs) \
+            and not any(r.raw is not None and r.tag == "MODEL " for r in recs):
+        # hydrogens in the input (the program's own, written back): they carry serials too
+        r0 = obs.run_single(pdbio.dump(sources.no_hydrogens(recs)), with_atoms=True, write_pka=False)
+        if not r0.exc and len(r0.rec["names"]) == 1:
+            recs, _n, _o = sources.with_hydrogens(sources.no_hydrogens(recs), r0.rec["confs"][r0.rec["names"][0]]["hydrogens"])
+            with_h = True
+            counts["inputs_with_hydrogens"] = 1
+    base = obs.run_single(pdbio.dump(recs), opts)
     mode = rng.choice(("random", "descending", "duplicates", "big", "negative", "restart-per-model", "shuffled"))
+    if door:
+        mode = rng.choice(("shuffled", "shuffled", "restart-per-model", "descending-small"))
     shuffled = list(range(1, len(pdbio.atoms(recs)) + 1))
     rng.shuffle(shuffled)
     out = []
@@ -274,6 +309,8 @@ def run_serial_case(case, viol, counts):
                 r.serial = ref.encode(rng.randint(-9999, 87440031), 5)
             elif mode == "descending":
                 r.serial = ref.encode(87440031 - 37 * k, 5)
+            elif mode == "descending-small":
+                r.serial = ref.encode(n_at - k, 5)
             elif mode == "duplicates":
                 r.serial = ref.encode(rng.choice((1, 1, 7, 100000, 43770016)), 5)
             elif mode == "big":
@@ -282,7 +319,7 @@ def run_serial_case(case, viol, counts):
                 r.serial = ref.encode(-9999 + k, 5)
             k += 1
         out.append(r)
-    edited = obs.run_single(pdbio.dump(out))
+    edited = obs.run_single(pdbio.dump(out), opts)
     counts["pipeline_runs"] = 2
     counts["serials_rewritten"] = k
     if base.exc or edited.exc:
@@ -296,7 +333,7 @@ def run_serial_case(case, viol, counts):
         if diffs:
             viol.append({"cls": "serial-influences-result",
                          "msg": "mode %s: %s" % (mode, obs.brief(diffs))})
-    return {"kind": "serial", "mode": mode, "atoms": n_at,
+    return {"kind": "serial", "mode": mode, "atoms": n_at, "opts": opts, "input_hydrogens": with_h,
             "first_serials": [r.serial for r in pdbio.atoms(out)[:3]]}
 
 
